@@ -153,6 +153,19 @@ def run(tier, seed):
             b = call(lambda: me.multipitch.metrics(mt, mrf, met, [x * o for x in mef], window=0.74)[7:])
             log.add("same", "multipitch.metrics[chroma]", a, b, {"what": "estimate-only octave shift", "factor": o,
                                                                   "ref": [x.tolist() for x in mrf], "est": [x.tolist() for x in mef]})
+        # monophonic frames a quarter tone apart, through all twelve transpositions: one of them carries each pair across
+        # the B/C boundary of the chroma circle (a wrapped distance of 0.5, an unwrapped one of 11.5)
+        if it % 3 == 0:
+            nfr = rng.randint(1, 4)
+            us = [2 * rng.randint(-12, 12) + 1 for _ in range(nfr)]
+            m_rf = [np.array([440.0 * 2 ** (u / 24.0)]) for u in us]
+            m_ef = [np.array([440.0 * 2 ** ((u + rng.choice([1, -1])) / 24.0)]) for u in us]
+            m_t = np.arange(nfr) * 0.25
+            base = call(me.multipitch.metrics, m_t, m_rf, m_t, m_ef, window=0.74)
+            for j in range(1, 12):
+                f = 2.0 ** (j / 12.0)
+                log.add("close", "multipitch.metrics", base, call(me.multipitch.metrics, m_t, [x * f for x in m_rf], m_t, [x * f for x in m_ef], window=0.74),
+                        {"what": "both x 2^(j/12)", "factor": f, "ref": [x.tolist() for x in m_rf], "est": [x.tolist() for x in m_ef], "family": "mono"})
         # notes
         ri, rp, ei, ep = gen.gen_notes(rng, shape)
         for kw in ({}, {"offset_ratio": None}):
